@@ -432,6 +432,7 @@ func (c *control) scanDirBlock(buf []byte, pos int, dirName string, open, close 
 				at = true
 			case open:
 				pos = c.scanDirBlock(buf, pos, dirName, open, close, colonOk) + 2
+				tilde = false
 			case close:
 				if at || (colon && !colonOk) {
 					c.invalidDir(buf, pos)
@@ -1530,11 +1531,13 @@ func (c *control) scanCond(buf []byte, pos int) ([]string, string, int) {
 				if colon {
 					defNext = true
 				}
+				tilde = false
 			case '[':
 				// This ends up with a double scan, maybe fine for the rare
 				// case where it occurs.
 				_, _, pos = c.scanCond(buf, pos)
 				pos += 2
+				tilde = false
 			case ']':
 				if at || colon {
 					c.invalidDir(buf, pos)
